@@ -30,7 +30,9 @@ type ArmMember struct {
 	SizeText string `json:",omitempty"`
 	Magic    string `json:",omitempty"` // "" = "`\n"; otherwise exactly two bytes
 	Data     []byte
-	NoPad    bool `json:",omitempty"` // omit the '\n' that pads an odd-sized member
+	NoPad    bool `json:",omitempty"` // omit the byte that pads an odd-sized member
+	// Pad is the byte written after odd-length data ("" = '\n', what ar(1) writes; other writers pad with NUL).
+	Pad string `json:",omitempty"`
 }
 
 func armPad(s string, w int) string {
@@ -67,7 +69,11 @@ func ArmBuild(ms []ArmMember) []byte {
 		b.Write(ArmHeader(m))
 		b.Write(m.Data)
 		if len(m.Data)%2 == 1 && !m.NoPad {
-			b.WriteByte('\n')
+			if m.Pad != "" {
+				b.WriteByte(m.Pad[0])
+			} else {
+				b.WriteByte('\n')
+			}
 		}
 	}
 	return b.Bytes()
